@@ -170,5 +170,59 @@ def parseDoc (d : Doc) : Option (ConfigTag × Option Rate) :=
   | .lossy => some (d.tag, d.rate)
   | _ => none
 
+/-! #### the real thread: what can be seen is (active tag, touched, alive) after each step; the
+refresh rate itself is not observable, only its effect (T2 of Reloader.lean): while the last
+applied configuration asked for a slow rate, an edit must not be picked up before the long wait -/
+
+structure ThreadSpecState where
+  id : Ideal Doc
+  cur : FileView Doc
+  rate : Option Rate        -- refresh rate of the configuration the *statement* says is active
+
+/-- one observed step. The `PollObs` handed to `specPoll` gets the rate the statement prescribes
+(it cannot be observed), so only the configuration / touched / alive clauses can fail. -/
+def specThreadStep (st : ThreadSpecState) (step : TStep Doc) (active : ConfigTag) (touched alive : Bool) :
+    Option String × ThreadSpecState :=
+  let p := st.id.prev
+  let slow : Bool := match st.rate with
+    | some r => decide (r ≥ slowRate)
+    | none => false
+  let (view, polled) : FileView Doc × Bool := match step with
+    | .edit fv => (fv, !slow)
+    | .longWait => (st.cur, true)
+  if !polled then
+    -- the loop is asleep for the slow rate: nothing may happen yet
+    (if !touched && active == p.active && alive == p.alive then none else some "rate-not-followed",
+     { st with cur := view })
+  else
+    let action : Action := if touched then .applied else if !p.alive then .dead else .unchanged
+    let newRate : Option Rate :=
+      if touched then (match view.text?.bind parseDoc with
+        | some (_, r) => r
+        | none => st.rate) else st.rate
+    let o : PollObs := { action, active, alive,
+                         rate := if touched then (newRate.getD p.rate) else p.rate }
+    let (v, id') := specPoll parseDoc st.id view o
+    (v, { id := id', cur := view, rate := newRate })
+
+def specThreadSteps : ThreadSpecState → Nat → List (TStep Doc × ConfigTag × Bool × Bool) → Option (Nat × String)
+  | _, _, [] => none
+  | st, i, (step, a, t, al) :: rest =>
+    match specThreadStep st step a t al with
+    | (some why, _) => some (i, why)
+    | (none, st') => specThreadSteps st' (i + 1) rest
+
+def specThread (m0 : Mtime) (d0 : Doc) (initActive : ConfigTag) (initAlive : Bool)
+    (steps : List (TStep Doc × ConfigTag × Bool × Bool)) : Option (Nat × String) :=
+  match parseDoc d0 with
+  | none => some (0, "init-unparsable")
+  | some (c, r) =>
+    if initActive == c && initAlive == r.isSome then
+      specThreadSteps
+        { id := { remM := some m0, remText := d0, prevText := some d0,
+                  prev := { action := .unchanged, active := c, rate := r.getD 0, alive := r.isSome } },
+          cur := .ok m0 d0, rate := r } 1 steps
+    else some (0, "init-wrong")
+
 end Reloader
 end Log4rs.Reconfig
